@@ -306,15 +306,18 @@ class RealWorld(object):
 
     def write(self, text):
         # include files of this version of the configuration (conf.d/ is rewritten every time)
+        import shutil
         inc = os.path.join(self.wd, 'conf.d')
-        if os.path.isdir(inc):
-            for f in os.listdir(inc):
-                os.unlink(os.path.join(inc, f))
+        shutil.rmtree(inc, ignore_errors=True)
         for rel, t in sorted((getattr(text, 'extra', None) or {}).items()):
-            if not os.path.isdir(inc):
-                os.makedirs(inc)
+            d = os.path.dirname(os.path.join(self.wd, rel))
+            if not os.path.isdir(d):
+                os.makedirs(d)
             with open(os.path.join(self.wd, rel), 'wb') as f:
                 f.write(t if isinstance(t, bytes) else t.encode('utf-8'))
+        if text is not None and not getattr(text, 'extra', None):
+            import c15_gen
+            text = c15_gen.subst(text)       # (placeholders left in hand-built texts)
         if text is None:
             if os.path.exists(self.path):
                 os.unlink(self.path)
